@@ -271,6 +271,40 @@ theorem password_configured_by_any_means (cli file : List Bytes) :
     | some p => rfl
     | none => exact absurd (by simpa using hfl) hf
 
+/-- The configuration file passes a password through UNCHANGED, whatever characters it contains — `#`, `;`, `=`, quotes,
+    inner blanks and tabs, backslashes, text that looks like a directive: for every value `v` that the grammar can
+    express at all (no white space at either end, as `str::trim` sees it — the two hypotheses), the line
+    `requirepass v` yields exactly `v`.  Nothing is cut, unquoted or unescaped. -/
+theorem requirepass_line_passes_value_unchanged (v : Bytes)
+    (h1 : trim (REQUIREPASS ++ 32 :: v) = REQUIREPASS ++ 32 :: v) (h2 : trim v = v) :
+    Code.parseConfigLine false (REQUIREPASS ++ 32 :: v) = some (REQUIREPASS, v) := by
+  have hs : splitFirstBlank (REQUIREPASS ++ 32 :: v) = some (REQUIREPASS, v) := by
+    simp [REQUIREPASS, splitFirstBlank]
+  have ht : (trim REQUIREPASS).map (fun b => if 65 ≤ b ∧ b ≤ 90 then b + 32 else b) = REQUIREPASS := by decide
+  unfold Code.parseConfigLine
+  simp only [h1]
+  rw [if_neg (by simp [REQUIREPASS])]
+  simp only [Bool.false_eq_true, if_false, hs, ht, h2]
+
+/-- Non-vacuity, on the values the check writes into files: the hypotheses hold and the value comes through. -/
+example :
+    ∀ v ∈ [nameBytes "Tr0ub4dor#3x", nameBytes "#lead", nameBytes "a;b", nameBytes "k=v", nameBytes "\"quoted\"", nameBytes "in ner  blanks",
+           nameBytes "back\\slash", nameBytes "port 1", nameBytes "requirepass other", [116, 9, 105]],
+      trim (REQUIREPASS ++ 32 :: v) = REQUIREPASS ++ 32 :: v ∧ trim v = v ∧
+      Code.filePasswords false [REQUIREPASS ++ 32 :: v] = [v] := by decide
+
+/-- … and a value with a blank at an end is not expressible: the file gives the trimmed value. -/
+example : Code.filePasswords false [REQUIREPASS ++ 32 :: nameBytes " pw "] = [nameBytes "pw"] := by decide
+
+/-- Witness: a grammar that drops "trailing comments" truncates a password containing `#` — the server then runs with a
+    proper prefix of the password it was given, which authenticates, while the exact password is refused. -/
+theorem hash_cutting_grammar_truncates_password :
+    Code.filePasswords true [REQUIREPASS ++ 32 :: nameBytes "Tr0ub4dor#3x"] = [nameBytes "Tr0ub4dor"] ∧
+    Code.filePasswords false [REQUIREPASS ++ 32 :: nameBytes "Tr0ub4dor#3x"] = [nameBytes "Tr0ub4dor#3x"] := by decide
+
+/-- The tree's configuration-file grammar is the one modelled (`hashCuts = false`). -/
+theorem tree_config_line_grammar : Gen.configLineGrammar = "rest-of-line-trimmed" := by decide
+
 /-- Witness: assigning the command line's `Option` unconditionally wipes a password that only the file gives. -/
 theorem cli_always_rule_wipes_file_password :
     Code.effectivePassword .always [] [[112]] = none ∧ Spec.configuredPassword [] [[112]] = some [112] := by decide
